@@ -78,10 +78,12 @@ func (r *Value) set(value proto.Message, request WriteRequest) (proto.Message, e
 
 	ctx, cancel := context.WithTimeout(context.TODO(), time.Second*5)
 	defer cancel()
+	verifAt("pub.before", &r.mu)
 	r.bus.Send(ctx, &ValueChange{
 		Value:      newValue,
 		ChangeTime: request.updateTime(r.clock),
 	})
+	verifAt("pub.after", &r.mu)
 	if errors.Is(ctx.Err(), context.DeadlineExceeded) {
 		return nil, errors.New("bus.Send blocked for too long")
 	}
@@ -100,6 +102,7 @@ func (r *Value) Pull(ctx context.Context, opts ...ReadOption) <-chan *ValueChang
 	typedEvents := make(chan *ValueChange)
 	go func() {
 		defer close(typedEvents)
+		defer verifAt("fwd.exit", typedEvents)
 
 		if currentValue != nil {
 			change := &ValueChange{Value: currentValue, ChangeTime: changeTime, SeedValue: true, LastSeedValue: true}
@@ -113,8 +116,10 @@ func (r *Value) Pull(ctx context.Context, opts ...ReadOption) <-chan *ValueChang
 
 		last := currentValue
 		for event := range on {
+			verifAt("fwd.got", typedEvents)
 			change := event.(*ValueChange).filter(filter)
 			if r.equivalence != nil && r.equivalence.Compare(last, change.Value) {
+				verifAt("fwd.skip", typedEvents)
 				continue
 			}
 			last = change.Value
@@ -123,6 +128,7 @@ func (r *Value) Pull(ctx context.Context, opts ...ReadOption) <-chan *ValueChang
 				return // give up sending
 			case typedEvents <- change:
 			}
+			verifAt("fwd.sent", typedEvents)
 		}
 	}()
 	return typedEvents
@@ -140,7 +146,9 @@ func (r *Value) onUpdate(ctx context.Context, config *ReadRequest) (<-chan any, 
 		changeTime = r.changeTime
 	}
 
+	verifAt("sub.snap", &r.mu)
 	ch := r.bus.Listen(ctx)
+	verifAt("sub.listening", &r.mu)
 	if !config.Backpressure {
 		ch = minibus.DropExcess(ch)
 	}
